@@ -222,21 +222,27 @@ def run(ctx):
 
 
 def consumer_selections(ctx):
-    """(callee name, literal order or None, call node) for each quadrature call in transport_density."""
+    """(callee name, literal order or None, call node) for each quadrature call in transport_density (or in a helper of the
+    same module that it delegates to)."""
+    from ..amatch import helper_closure
+
     m = ctx.model
     td = m.func("darsia.measure.wasserstein", "VariationalWassersteinDistance.transport_density")
     ctx.consult(td.module.name)
     sel = []
-    for n in ast.walk(td.node):
-        if isinstance(n, ast.Call):
-            t = m.resolve_call(n, td)
-            if t is not None and not isinstance(t, str) and getattr(t, "module", None) is m.mod(MOD):
-                order = None
-                if len(n.args) > 1:
-                    if not isinstance(n.args[1], ast.Constant):
-                        raise AnalysisError(f"non-literal quadrature order in {norm(n)}")
-                    order = n.args[1].value
-                sel.append((t.name, order, n))
+    for host in helper_closure(td):
+        for n in ast.walk(host.node):
+            if not isinstance(n, ast.Call):
+                continue
+            t = m.resolve_call(n, host)
+            if t is None or isinstance(t, str) or getattr(t, "module", None) is not m.mod(MOD):
+                continue
+            order = None
+            if len(n.args) > 1:
+                if not isinstance(n.args[1], ast.Constant):
+                    raise AnalysisError(f"non-literal quadrature order in {norm(n)}")
+                order = n.args[1].value
+            sel.append((t.name, order, n))
     return td, sel
 
 
